@@ -61,6 +61,16 @@ def model_jobs(tier):
              ("bug-unlocked", tm_cfg(4, True, 2, 4, 1, bug="unlocked", drop=drop), "NoLoss"),
              ("bug-nopushonpanic", tm_cfg(4, False, 2, 4, 1, bug="nopushonpanic", drop=drop), "NoLoss"),
              ("bug-refillfirst", tm_cfg(4, True, 2, 4, 1, bug="refillfirst", drop=drop), "NoStall")]
+    # interrupt path of the run loop (TaskManagerInt): waitAll() before the interrupt is returned, eager and batch; the seeded
+    # "interrupt path calls wait()" must violate EndOK in eager mode
+    def icfg(eager, bug="none", live=False, drop=()):
+        c = tm_cfg(3 if live else 4, eager, 2, 3 if live else 4, 1, drop=drop, live=live)
+        c = c.replace("SPECIFICATION FairSpec", "SPECIFICATION IFairSpec").replace("SPECIFICATION Spec", "SPECIFICATION ISpec")
+        c = c.replace("SYMMETRY Sym", "SYMMETRY ISym").replace('  Bug = "none"', '  Bug = "none"\n  IBug = "%s"' % bug)
+        return c.replace("PROPERTY Term\nPROPERTY Handed\n", "PROPERTY IntReturns\n")
+    jobs += [("int-eager-4x2", icfg(True), "pass", "TaskManagerInt"), ("int-batch-4x2", icfg(False), "pass", "TaskManagerInt"),
+             ("int-live-eager-3", icfg(True, live=True), "pass", "TaskManagerInt"),
+             ("bug-intwait", icfg(True, "intwait", drop=drop), "EndOK", "TaskManagerInt")]
     return jobs
 
 
@@ -69,14 +79,15 @@ def run_models(tier):
     timeout = 2400 if tier == "thorough" else 400
 
     def one(job):
-        name, cfg, _ = job
+        name, cfg = job[0], job[1]
         big = name.endswith("7x3")
-        return vlib.tlc("MCTaskManager", "mc_%s.cfg" % name, files={"mc_%s.cfg" % name: cfg}, workers=4 if big else 2, timeout=timeout,
+        return vlib.tlc(job[3] if len(job) > 3 else "MCTaskManager", "mc_%s.cfg" % name, files={"mc_%s.cfg" % name: cfg}, workers=4 if big else 2, timeout=timeout,
                         heap="8g" if big else "2g")
     with concurrent.futures.ThreadPoolExecutor(max_workers=JVMS if tier == "quick" else 3) as ex:
         runs = list(ex.map(one, jobs))
     out, states, trans = [], 0, 0
-    for (name, _, expect), r in zip(jobs, runs):
+    for job, r in zip(jobs, runs):
+        name, expect = job[0], job[2]
         rec = {"cfg": name, "distinct": r.distinct, "generated": r.generated, "depth": r.depth, "wall_s": round(r.wall_s, 1), "expect": expect}
         if expect == "pass":
             vlib.tlc_must_pass(r, "TaskManager " + name)
@@ -100,12 +111,14 @@ def run_conf_model(tier):
     def text(cfg, bug=None):
         t = open(os.path.join(vlib.SPEC, cfg)).read()
         return t.replace('RBug = "none"', 'RBug = "%s"' % bug) if bug else t
-    jobs = [("dag3", text("MC_TMRun_dag3.cfg"), "pass"), ("wf3", text("MC_TMRun_wf3.cfg"), "pass"), ("pregel3", text("MC_TMRun_pregel3.cfg"), "pass")]
+    jobs = [("dag3", text("MC_TMRun_dag3.cfg"), "pass"), ("wf3", text("MC_TMRun_wf3.cfg"), "pass"), ("pregel3", text("MC_TMRun_pregel3.cfg"), "pass"),
+            ("wf3i", text("MC_TMRun_wf3i.cfg"), "pass"), ("dag3i", text("MC_TMRun_dag3i.cfg"), "pass")]   # interrupt-after marks: waitAll + resume
     if tier == "thorough":
         jobs += [("dag4", text("MC_TMRun_dag4.cfg"), "pass"), ("wf4", text("MC_TMRun_wf4.cfg"), "pass")]
     jobs += [("bug-eagerbatch", text("MC_TMRun_dag3.cfg", "eagerbatch"), "RuleHolds"),
              ("bug-earlyreturn", text("MC_TMRun_wf3.cfg", "earlyreturn"), "RuleHolds"),
-             ("bug-lostcompletion", text("MC_TMRun_wf3.cfg", "lostcompletion"), "RuleHolds")]
+             ("bug-lostcompletion", text("MC_TMRun_wf3.cfg", "lostcompletion"), "RuleHolds"),
+             ("bug-intwaitone", text("MC_TMRun_wf3i.cfg", "intwaitone"), "RuleHolds")]
 
     def one(job):
         return vlib.tlc("TMRun", "mcr_%s.cfg" % job[0], files={"mcr_%s.cfg" % job[0]: job[1]}, workers=4 if job[0].endswith("4") else 2,
@@ -166,11 +179,11 @@ def apalache_attempt(ntasks, timeout):
 
 # ------------------------------------------------------------------------------------------------ case generation
 
-def gen_cfg(mode, n, max_edges, fail_kinds, dangling, max_br=0, max_rerun=0):
+def gen_cfg(mode, n, max_edges, fail_kinds, dangling, max_br=0, max_rerun=0, max_mark=0):
     """branch-free families use spec/TMGen.tla, families with branches spec/TMGenB.tla (same growth + statically selecting branches)"""
     return ('CONSTANTS\n  Mode = "%s"\n  N = %d\n  MaxEdges = %d\n%s  FailKinds = {%s}\n  AllowDangling = %s\n'
             'SPECIFICATION Spec\nINVARIANT Emit\nCHECK_DEADLOCK FALSE\n' % (
-                mode, n, max_edges, "  MaxBr = %d\n" % max_br if max_br else "  MaxRerun = %d\n" % max_rerun, ", ".join('"%s"' % k for k in fail_kinds),
+                mode, n, max_edges, "  MaxBr = %d\n" % max_br if max_br else "  MaxRerun = %d\n  MaxMark = %d\n" % (max_rerun, max_mark), ", ".join('"%s"' % k for k in fail_kinds),
                 "TRUE" if dangling else "FALSE"))
 
 
@@ -180,7 +193,8 @@ def gen_graphs(families):
         name, mode, n, me, fk, dang = f[:6]
         br = f[6] if len(f) > 6 else 0
         rr = f[7] if len(f) > 7 else 0
-        return vlib.tlc("TMGenB" if br else "TMGen", "gen_%s.cfg" % name, files={"gen_%s.cfg" % name: gen_cfg(mode, n, me, fk, dang, br, rr)},
+        mk = f[8] if len(f) > 8 else 0
+        return vlib.tlc("TMGenB" if br else "TMGen", "gen_%s.cfg" % name, files={"gen_%s.cfg" % name: gen_cfg(mode, n, me, fk, dang, br, rr, mk)},
                         workers=2, timeout=900, heap="4g")
     with concurrent.futures.ThreadPoolExecutor(max_workers=JVMS) as ex:
         runs = list(ex.map(one, families))
@@ -199,7 +213,7 @@ def gen_graphs(families):
             g["probes"] = sorted(g["probes"])
             graphs.append(g)
             k += 1
-        stats.append({"family": f[0], "mode": f[1], "nodes": f[2], "max_edges": f[3], "fail_kinds": list(f[4]), "dangling": f[5], "max_branches": f[6] if len(f) > 6 else 0, "max_rerun": f[7] if len(f) > 7 else 0, "graphs": k,
+        stats.append({"family": f[0], "mode": f[1], "nodes": f[2], "max_edges": f[3], "fail_kinds": list(f[4]), "dangling": f[5], "max_branches": f[6] if len(f) > 6 else 0, "max_rerun": f[7] if len(f) > 7 else 0, "max_marks": f[8] if len(f) > 8 else 0, "graphs": k,
                       "orders": sum(len(g["orders"]) for g in graphs if g["fam"] == f[0]),
                       "probes": sum(len(g["probes"]) for g in graphs if g["fam"] == f[0]), "tlc_distinct": r.distinct})
         log("  family %s: %d graphs, %d completion orders, %d probes (TLC %d distinct states, %.0fs)" % (
@@ -211,7 +225,7 @@ def order_cases(graphs):
     cases = []
     for gi, g in enumerate(graphs):
         base = {"grp": "g%d" % gi, "mode": g["mode"], "nodes": g["nodes"], "edges": g["edges"], "branches": g.get("branches", []),
-                "fail": g["fail"], "rerun": g.get("rerun", []), "hook": False,
+                "fail": g["fail"], "rerun": g.get("rerun", []), "after": g.get("after", []), "before": g.get("before", []), "hook": False,
                 "call": "stream" if gi % 3 == 2 else "invoke"}           # every third graph is run through Stream()
         k = 0
         for o in g["orders"]:
@@ -316,6 +330,14 @@ def hook_cases(tier, graphs, rnd):
         # two failures in one step (batch: both collected; eager: the first collected wins)
         for mode in ("dag", "wf"):
             shapes.append((lane_graph(mode, 3, 2, [{"n": "n0_0", "kind": "panic"}, {"n": "n2_0", "kind": "err"}]), "holdcoll", 30))
+        # interrupt path: the after-node finishes first while 2-3 siblings are in flight; the run loop must collect all of them (waitAll)
+        for mode in ("dag", "wf"):
+            for lanes in (3, 4):
+                for stages in (1, 2):
+                    for gate in ("none", "sleep", "holdcoll"):
+                        g = lane_graph(mode, lanes, stages)
+                        g["after"] = ["n%d_0" % rnd.randrange(lanes)]
+                        shapes.append((g, gate, rnd.choice((60, 150))))
     pool = [g for g in graphs]
     rnd.shuffle(pool)
     for g in pool[:120 * reps]:
@@ -556,13 +578,16 @@ def families_for(tier, rnd):
                 ("wf3", "wf", 3, 9, ("err", "panic"), True, 0), ("pregel4", "pregel", 4, 14, (), False, 0),
                 ("dag4", "dag", 4, 14, (), False, 0), ("wf4", "wf", 4, 14, (), True, 0),
                 ("dag3b", "dag", 3, 5, (), False, 1), ("wf3b", "wf", 3, 5, (), True, 1),
-                ("dag3r", "dag", 3, 9, (), False, 0, 2), ("wf3r", "wf", 3, 9, (), True, 0, 2)]
+                ("dag3r", "dag", 3, 9, (), False, 0, 2), ("wf3r", "wf", 3, 9, (), True, 0, 2),
+                ("dag3i", "dag", 3, 9, (), False, 0, 0, 1), ("wf3i", "wf", 3, 9, (), True, 0, 0, 2), ("wf4i", "wf", 4, 6, (), True, 0, 0, 1)]
     return [("dag3", "dag", 3, 9, ("err", "panic"), False, 0), ("pregel3", "pregel", 3, 9, ("err", "panic"), False, 0),
             ("wf3", "wf", 3, 9, ("err", "panic"), True, 0), ("pregel4", "pregel", 4, 14, ("err",), False, 0),
             ("dag4", "dag", 4, 14, ("err",), False, 0), ("wf4", "wf", 4, 14, ("panic",), True, 0),
             ("dag3b", "dag", 3, 9, ("err",), False, 1), ("wf3b", "wf", 3, 9, ("err",), True, 1),
             ("dag3r", "dag", 3, 9, (), False, 0, 3), ("wf3r", "wf", 3, 9, (), True, 0, 3), ("pregel3r", "pregel", 3, 9, (), False, 0, 2),
-            ("dag4r", "dag", 4, 14, (), False, 0, 1), ("wf4r", "wf", 4, 14, (), True, 0, 1)]
+            ("dag4r", "dag", 4, 14, (), False, 0, 1), ("wf4r", "wf", 4, 14, (), True, 0, 1),
+            ("dag3i", "dag", 3, 9, (), False, 0, 0, 2), ("wf3i", "wf", 3, 9, (), True, 0, 0, 3), ("dag4i", "dag", 4, 14, (), False, 0, 0, 1),
+            ("wf4i", "wf", 4, 14, (), True, 0, 0, 1)]
 
 
 def c03(tier, repo=None):
@@ -587,10 +612,15 @@ def c03(tier, repo=None):
         rnd.shuffle(big)
         rnd.shuffle(br)
         rr = [g for g in graphs if g["fam"].endswith("r") and g.get("rerun")]          # all 3-node graphs x 1-2 rerun nodes
-        graphs = small + big[:160] + br[:300] + rr
+        ii = [g for g in graphs if g["fam"].endswith("i") and (g.get("after") or g.get("before"))]   # static interrupt marks
+        wide = [g for g in ii if g["fam"] == "wf4i"]
+        rnd.shuffle(wide)
+        ii = [g for g in ii if g["fam"] != "wf4i"] + wide[:250]
+        graphs = small + big[:160] + br[:300] + rr + ii
         exhaustive = False
     graphs = [g for g in graphs if g.get("branches") or not g["fam"].endswith("b")]
-    graphs = [g for g in graphs if g.get("rerun") or not g["fam"].endswith("r")]        # rerun families: only the graphs with a rerun node      # branch families also grow the branch-free graphs again
+    graphs = [g for g in graphs if g.get("rerun") or not g["fam"].endswith("r")]        # rerun families: only the graphs with a rerun node
+    graphs = [g for g in graphs if g.get("after") or g.get("before") or not g["fam"].endswith("i")]      # branch families also grow the branch-free graphs again
     ocases = order_cases(graphs)
     scheds, sched_stats = gen_schedules(tier)
     hcases = hook_cases(tier, graphs, rnd) + sched_cases(tier, scheds, rnd)
